@@ -120,8 +120,26 @@ func c16TreeBase() string {
 	return scratch
 }
 
+// c16RemoveTree removes a tree and, when it was the last one, the tmpfs base directory (so that replays,
+// which do not go through runC16, leave nothing behind either).
+func c16RemoveTree(root string) {
+	if root == "" {
+		return
+	}
+	os.RemoveAll(root)
+	if base := filepath.Dir(root); strings.HasPrefix(base, "/dev/shm/") {
+		os.Remove(base) // fails while other lanes have trees there
+	}
+}
+
 func c16WriteTree(files map[string]c16Node) (string, error) {
-	root, err := os.MkdirTemp(c16TreeBase(), "c16-")
+	var root string
+	var err error
+	for try := 0; try < 8; try++ { // another lane may remove the empty base between MkdirAll and MkdirTemp
+		if root, err = os.MkdirTemp(c16TreeBase(), "c16-"); err == nil {
+			break
+		}
+	}
 	if err != nil {
 		return "", err
 	}
@@ -255,7 +273,7 @@ func c16RealResolve(raw json.RawMessage) any {
 		return map[string]any{"bad": err.Error()}
 	}
 	root, err := c16WriteTree(a.Files)
-	defer os.RemoveAll(root)
+	defer c16RemoveTree(root)
 	if err != nil {
 		return map[string]any{"bad": err.Error()}
 	}
@@ -343,7 +361,7 @@ func c16LoadReq(a c16Args) core.LoadReq {
 
 func c16RealLoad(a c16Args) any {
 	root, err := c16WriteTree(a.Files)
-	defer os.RemoveAll(root)
+	defer c16RemoveTree(root)
 	if err != nil {
 		return map[string]any{"bad": err.Error()}
 	}
@@ -466,7 +484,7 @@ func (o c16OracleArgs) toArgs(discard bool) c16Args {
 // the Project methods in the order modelToProject applies them
 func c16RealDirect(a c16Args) any {
 	root, err := c16WriteTree(a.Files)
-	defer os.RemoveAll(root)
+	defer c16RemoveTree(root)
 	if err != nil {
 		return map[string]any{"bad": err.Error()}
 	}
